@@ -3166,7 +3166,12 @@ class Value(WithArithmeticMethods, _protocols.ValueProtocol, _display.PrettyPrin
         """Display string for the constant tensor attached to str of Value."""
         if self.const_value is not None:
             # Only display when the const value is small
-            if self.const_value.size <= 10:
+            try:
+                is_small = self.const_value.size <= 10
+            except ValueError:
+                # The size is unknown when the tensor is declared with a symbolic shape
+                is_small = False
+            if is_small:
                 return f"{{{self.const_value}}}"
             else:
                 return f"{{{self.const_value.__class__.__name__}(...)}}"
